@@ -227,6 +227,11 @@ SPEC = {
             "+ structured random queries (levels 1-5: single pattern … OPTIONAL MATCH / quantifiers / pattern predicates / expansions / multi-part; 120 per level quick, "
             "4000 thorough; splitmix64(VERIF_SEED)) + query-builder ASTs from /repo/query and /repo/query/v2 (150 quick / 3000 thorough); each is translated by the REAL "
             "translator and the verified binder runs on the reflection S-expression of Result.Statement with Result.Parameters' keys and the source's updating flag; "
+            "plus FOCUSED FAMILIES (harness/focused.go): minimal queries built systematically, one scoping shape each — a binding read only from the inline property map / WHERE / "
+            "pattern predicate / endpoint of a later MATCH; renamings inside one WITH (fresh, identity, shadowing, swaps, rotations); variable-length step + fixed hops with every subset of "
+            "the suffix nodes already bound; aggregate-only projections with LIMIT. FINDING KEY = C03:<symptom>:<sql site>:<query shape>: symptom from the binder verdict, sql site from the "
+            "position of the dangling reference in the SQL text, query shape = the first ENABLING feature set (lib/cyshape.py, table SHAPES in lib/props/c03.py) the Cypher text satisfies for "
+            "that symptom:site; a query that shows the symptom at that site without any registered enabling shape is keyed `unrecognised-query-shape`, which is never registered: VIOLATION. "
             "non-trivial = the statement has >= 2 CTE frames; distinct = distinct op lines",
     "expected_branches": ["translated", "source_updating", "gen.feat.with", "gen.feat.optional-match", "gen.feat.pattern-predicate", "gen.feat.quantifier",
                           "gen.feat.expansion", "gen.feat.path-binding", "gen.feat.multi-match", "gen.feat.unwind", "builder.v1-node", "builder.v2-rel"],
